@@ -557,6 +557,89 @@ theorem dropTorn_ok (M : Mem) (st : PState) (j : Int) (m : String) (hI : PInv st
     rw [hp] at this
     exact ⟨this.1, hI, this.2⟩
 
+/-! ### two racing writers -/
+
+theorem pWrite_ok_accepted (st : PState) (b : List Point) (h : (pWrite st b).2 = .ok) :
+    ∀ pv ∈ (verdicts st.mem b).2.2, pv.2.accepted = true := by
+  rw [pWrite_res] at h
+  rcases writePoints_res { sch := st.mem, data := st.data } b with ⟨_, h2⟩ | ⟨r, h1⟩
+  · have h2' : countDropped (verdicts st.mem b).2.2 = 0 := h2
+    unfold countDropped at h2'
+    rw [List.countP_eq_zero] at h2'
+    intro pv hpv
+    have := h2' pv hpv
+    simpa using this
+  · rw [h1] at h; cases h
+
+theorem pWrite_not_hard (st : PState) (b : List Point) : hardErrorOf (pWrite st b).2 = none := by
+  rw [pWrite_res]
+  rcases writePoints_res { sch := st.mem, data := st.data } b with ⟨h1, _⟩ | ⟨r, h1⟩ <;> rw [h1] <;> rfl
+
+theorem allOnRecord_of (s : Schema) (b : List Point)
+    (h : ∀ p ∈ b, ∀ f ∈ p.fields, f.name ≠ timeName → s.lookup (p.meas, f.name) = some f.ty) :
+    allOnRecord s b = true := by
+  unfold allOnRecord
+  rw [List.all_eq_true]; intro p hp
+  rw [List.all_eq_true]; intro f hf
+  by_cases hn : f.name = timeName
+  · simp [hn]
+  · simp [h p hp f hf hn]
+
+theorem ok_on_record (st : PState) (b : List Point) (h : (pWrite st b).2 = .ok) :
+    ∀ p ∈ b, ∀ f ∈ p.fields, f.name ≠ timeName → (pWrite st b).1.mem.lookup (p.meas, f.name) = some f.ty := by
+  intro p hp f hf hn
+  rw [pWrite_mem]
+  rw [← verdicts_map_fst st.mem b] at hp
+  obtain ⟨pv, hpv, rfl⟩ := List.mem_map.1 hp
+  exact verdicts_typed b st.mem pv.1 pv.2 hpv (pWrite_ok_accepted st b h pv hpv) f hf hn
+
+theorem race_ok (M : Mem) (st : PState) (a b : List Point) (hI : PInv st) (hR : Rel M st) :
+    (stepFails M (step10 st (.race a b)).2).1 = none ∧ PInv (step10 st (.race a b)).1 ∧
+    Rel (stepFails M (step10 st (.race a b)).2).2 (step10 st (.race a b)).1 := by
+  simp only [step10]
+  have hI1 := write_inv st a hI
+  have hI2 := write_inv (pWrite st a).1 b hI1
+  rw [seen_eq _ hI2]
+  have hm1 : ∀ k t, st.mem.lookup k = some t → (pWrite st a).1.mem.lookup k = some t := by
+    intro k t hk; rw [pWrite_mem]; exact verdicts_mono a st.mem k t hk
+  have hm2 : ∀ k t, (pWrite st a).1.mem.lookup k = some t →
+      (pWrite (pWrite st a).1 b).1.mem.lookup k = some t := by
+    intro k t hk; rw [pWrite_mem]; exact verdicts_mono b _ k t hk
+  refine ⟨?_, hI2, ⟨rfl, ?_⟩⟩
+  · simp only [stepFails]
+    rw [pWrite_not_hard, pWrite_not_hard, seenFails_ok _ hI2,
+      subSchema_of _ _ (by rw [hR.cur]; exact hI.ndMem) (by rw [hR.cur]; exact fun k t hk => hm2 k t (hm1 k t hk))]
+    have ha : ((pWrite st a).2 == .ok && !allOnRecord (pWrite (pWrite st a).1 b).1.mem a) = false := by
+      by_cases h : (pWrite st a).2 = .ok
+      · rw [allOnRecord_of _ a (fun p hp f hf hn => hm2 _ _ (ok_on_record st a h p hp f hf hn))]; simp
+      · simp [h]
+    have hb : ((pWrite (pWrite st a).1 b).2 == .ok && !allOnRecord (pWrite (pWrite st a).1 b).1.mem b) = false := by
+      by_cases h : (pWrite (pWrite st a).1 b).2 = .ok
+      · rw [allOnRecord_of _ b (ok_on_record _ b h)]; simp
+      · simp [h]
+    simp [ha, hb]
+  · simp only [stepFails]
+    intro m hm
+    obtain ⟨hm1', hm2'⟩ := List.mem_filter.1 hm
+    apply hasMeas_false_of_lookup _ hI2.ndMem
+    intro k t hk
+    have hcarry : ∀ (c : List Point), (∀ p ∈ c, p ∈ a ++ b) → carries c k t = true → k.1 ≠ m := by
+      intro c hc h1 hkm
+      unfold carries at h1
+      rw [List.any_eq_true] at h1
+      obtain ⟨p, hp, hpc⟩ := h1
+      simp only [Bool.and_eq_true, beq_iff_eq] at hpc
+      have : (a ++ b).any (fun p => p.meas == m) = true := by
+        rw [List.any_eq_true]; exact ⟨p, hc p hp, by simp [hpc.1, hkm]⟩
+      simp [this] at hm2'
+    rw [pWrite_mem] at hk
+    rcases verdicts_new b _ k t hk with h1 | h1
+    · rw [pWrite_mem] at h1
+      rcases verdicts_new a _ k t h1 with h2 | h2
+      · exact lookup_of_hasMeas_false _ _ (hR.dropped m hm1') k t h2
+      · exact hcarry a (fun p hp => List.mem_append_left _ hp) h2
+    · exact hcarry b (fun p hp => List.mem_append_right _ hp) h1
+
 /-! ### the theorems -/
 
 theorem step_ok (M : Mem) (st : PState) (op : Op10) (hI : PInv st) (hR : Rel M st) :
@@ -570,6 +653,7 @@ theorem step_ok (M : Mem) (st : PState) (op : Op10) (hI : PInv st) (hR : Rel M s
   | writeTorn j b => exact writeTorn_ok M st j b hI hR
   | dropTorn j m => exact dropTorn_ok M st j m hI hR
   | crashInClose p => exact crashInClose_ok M st p hI hR
+  | race a b => exact race_ok M st a b hI hR
   | look => exact ⟨(look_ok M st hI hR).1, hI, (look_ok M st hI hR).2⟩
 
 theorem firstFailure_trace (M : Mem) (st : PState) (hI : PInv st) (hR : Rel M st) (ops : List Op10) :
